@@ -40,6 +40,7 @@ type Engine struct {
 	errs      []string
 	repoDir   string
 	verbose   bool
+	leafErrs  []types.Type
 }
 
 func (e *Engine) errorf(format string, a ...interface{}) {
